@@ -36,6 +36,10 @@ type Case struct {
 	Msgs  []Msg  `json:"msgs"`
 	Frags []int  `json:"frags"`         // fragment sizes of the client->server byte stream, used cyclically; empty = one write per frame
 	Hdr   int    `json:"hdr,omitempty"` // header style of the client's frames (0 plain, 1/2 with Content-Type after/before Content-Length)
+	// Burst (subprocess tier): changes to DIFFERENT open documents written to the server in one
+	// write() after the history, the way "save all" or replace-in-files reaches it; every one of
+	// them must be analysed and its diagnostics published
+	Burst []Msg `json:"burst,omitempty"`
 }
 
 type Result struct {
@@ -405,6 +409,18 @@ func genHistory(r *rand.Rand, tier string) Case {
 		}
 	default:
 		c.Frags = []int{16 + r.IntN(10), 1, 1, 1, 1, 2, 1 + r.IntN(500)} // splits inside the header and the blank line
+	}
+	if tier == "subproc" && r.IntN(2) == 0 {
+		open := core.SortedKeys(latest)
+		r.Shuffle(len(open), func(a, b int) { open[a], open[b] = open[b], open[a] })
+		if len(open) >= 2 {
+			for _, u := range open[:2+r.IntN(len(open)-1)] {
+				d := newText(u)
+				version[u]++
+				latest[u] = d
+				c.Burst = append(c.Burst, Msg{Kind: "change", URI: u, Texts: []string{d.Text}, Ver: version[u]})
+			}
+		}
 	}
 	if tier == "subproc" {
 		for i := range c.Msgs {
